@@ -171,6 +171,17 @@ class LoopbackSock(FakeSock):
         self.server_alive = True
         self.requests = 0
         self.handshaken = True     # make_proxy constructs the connected state directly
+        self.server_on_own_thread = False   # True: the daemon serves on a helper thread (own thread-locals, like a real server)
+
+    def _serve(self):
+        if not self.handshaken:
+            if self.daemon._handshake(self.server_conn):
+                self.handshaken = True
+            else:
+                self.server_alive = False
+                self.server_conn.close()
+        else:
+            self.daemon.handleRequest(self.server_conn)
 
     def sendall(self, data):
         self._send_check()
@@ -181,14 +192,10 @@ class LoopbackSock(FakeSock):
         self.server_sock.queue(data)
         n = len(self.server_sock.sent)
         try:
-            if not self.handshaken:
-                if self.daemon._handshake(self.server_conn):
-                    self.handshaken = True
-                else:
-                    self.server_alive = False
-                    self.server_conn.close()
+            if self.server_on_own_thread:
+                RIG.S.run_in_thread(self._serve)
             else:
-                self.daemon.handleRequest(self.server_conn)
+                self._serve()
         except Exception as x:
             # the server layer would drop the connection
             self.server_alive = False
